@@ -3,8 +3,11 @@ package props
 import (
 	"encoding/hex"
 	"fmt"
+	"github.com/indexsupply/shovel/eth"
+	"github.com/indexsupply/shovel/wpg"
 	"math/big"
 	"strings"
+	"sync"
 	"time"
 	"unsafe"
 
@@ -139,6 +142,28 @@ func runABI(e *core.Env, prop string) error {
 		if strings.HasPrefix(implTy, "panic") {
 			continue
 		}
+		// C10 at the level a log is actually processed: the same valid, truncated and hostile data is also
+		// pushed through the real Integration.Insert (gate, Scan, row building, value conversion) - a log
+		// must yield rows or an error, never a crash of the indexing goroutine
+		var insertIG *dig.Integration
+		nIndexed := 0
+		if prop == "C10" && nsel > 0 {
+			var leaves []*aty
+			for _, in := range ec.inputs {
+				collectLeaves(in, &leaves)
+				if in.indexed {
+					nIndexed++
+				}
+			}
+			var cols []wpg.Column
+			for _, lf := range leaves {
+				cols = append(cols, wpg.Column{Name: lf.col, Type: "bytea"})
+			}
+			evc := ev
+			if ig, _, err := buildIG("ig1", "t1", nil, &evc, cols, "", nil); err == nil {
+				insertIG = &ig
+			}
+		}
 		res := dig.VerifResult(ev)
 		depth := 0
 		for _, in := range ec.inputs {
@@ -154,6 +179,27 @@ func runABI(e *core.Env, prop string) error {
 			out, rows := scanReal(res, data, capx)
 			seqOp = append(seqOp, core.Hex(data))
 			seqImpl = append(seqImpl, out)
+			if insertIG != nil && len(data) > 0 {
+				topics := []eth.Bytes{append(eth.Bytes(nil), ev.SignatureHash()...)}
+				for i := 0; i < nIndexed; i++ {
+					topics = append(topics, bytes32(byte(0x11+i)))
+				}
+				var b eth.Block
+				b.Header.Number = 5
+				tx := eth.Tx{}
+				tx.PrecompHash = bytes32(0x77)
+				tx.Logs = eth.Logs{eth.Log{Idx: 1, Address: bytes32(0x22)[:20], Topics: topics, Data: append(eth.Bytes(nil), data...)}}
+				b.Txs = eth.Txs{tx}
+				var mu sync.Mutex
+				iv := core.Protect(func() string {
+					if _, err := insertIG.Insert(e2eCtx("src1", 7), &mu, &fakeConn{}, []eth.Block{b}); err != nil {
+						return "no-crash" // an error is fine
+					}
+					return "no-crash"
+				})
+				e.Add(core.Case{Impl: iv, Spec: "no-crash", Key: fmt.Sprintf("c10-insert %s %s", ec.desc, core.Hex(data)), Nontrivial: hostile,
+					Tags: []string{"c10-insert-level", tag}, Detail: map[string]any{"event": ev, "data": core.Hex(data)}})
+			}
 			if prop == "C10" {
 				// crash / over-read / unbounded-rows oracle on the implementation
 				verdict := "bounded"
@@ -244,4 +290,12 @@ func countSel(t *aty) int {
 		}
 		return n
 	}
+}
+
+func bytes32(b byte) eth.Bytes {
+	out := make(eth.Bytes, 32)
+	for i := range out {
+		out[i] = b
+	}
+	return out
 }
